@@ -13,10 +13,10 @@ def run(ctx):
                 "items obtained per channel are a duplicate-free in-order part of the items the peer sent on that channel; (c) thread-level scenarios "
                 "(1-4 conversations, several sender/receiver threads per side, items up to 5 kB, chunked reads; receive / iteration / two receivers / setcallback after 0-5 receives) under random schedules: received == sent; "
                 "distinct = distinct op program / scenario parameters; non-trivial = more than 3 ops")
-    netprops.op_level(ctx, res, PROP, ctx.budget(400, 4000, 600))
-    netprops.run_scenarios(ctx, res, netprops.scenario_streams, ctx.budget(110, 4000, 350), "streams")
+    netprops.op_level(ctx, res, PROP, ctx.budget(400, 24000, 600))
+    netprops.run_scenarios(ctx, res, netprops.scenario_streams, ctx.budget(110, 24000, 350), "streams")
     # "through receive, iteration or a callback": the same scenarios with setcallback at a random moment of the stream
-    netprops.run_scenarios(ctx, res, netprops.scenario_streams, ctx.budget(90, 3000, 300), "streams-cb", with_callbacks=True)
+    netprops.run_scenarios(ctx, res, netprops.scenario_streams, ctx.budget(90, 18000, 300), "streams-cb", with_callbacks=True)
     netprops.process_level_streams(ctx, res)
     if ctx.thorough:
         netprops.run_scenarios(ctx, res, netprops.scenario_streams, 300, "streams-preempt", preempt=3)
